@@ -18,6 +18,7 @@ AST: a list of cues  {"n": counter string, "b": begin ms, "e": end ms, "hd": [di
                       "lines": [ [ [text, bold, italic, underline, color], ... ], ... ], "src": payload source text}
 where each line is a list of maximal runs of equal attributes and color is [r, g, b, a] or None (no font tag applies).
 """
+import html
 import re
 
 # HTML 4.01 section 6.5 - the sixteen colour names ("color name or #code, as in HTML")
@@ -99,6 +100,13 @@ def parse_payload(payload: str):
   for m in _TOKEN.finditer(payload):
     text(payload[pos:m.start()])
     pos = m.end()
+    if m.group("bad") == "&":
+      # an ampersand that cannot be read as (the start of) a character reference is plain text: Q&A, AT&T, "k &"
+      ref = re.match(r"&#?[A-Za-z0-9]*;?", payload[m.start():]).group(0)
+      if "#" in ref or html.unescape(ref) != ref:
+        raise Abstain(f"character reference {ref!r} in cue text")
+      text("&")
+      continue
     if m.group("bad"):
       raise Abstain(f"stray {m.group('bad')!r} in cue text")
     if m.group("an") or m.group("bn"):
